@@ -822,4 +822,409 @@ theorem deliver_need : ∀ fuel, NeedOK specs (deliver specs fuel) := by
     | stopImm ch st => simpa [deliver] using stopImm_need specs _ ih c ch st hnt
     | takeUntil a t st => exact absurd hnt (by simp [Op.NoTake])
 
+/-- may the consumer still pull? -/
+def Root.canPull (rt : Root) : Prop := (rt.ph = .idle ∧ rt.ended = false) ∨ rt.ph = .nexting
+
+structure PInv (phi0 : List Nat) (rt : Root) : Prop where
+  nt : rt.op.NoTake
+  si : SI2 rt.op
+  pre : rt.delivered <+: phi0
+  pull : rt.canPull → rt.delivered ++ rt.op.phi specs <+: phi0
+  ended : rt.cons.kind ≠ .manual → rt.ended = false
+
+/-- what `rootAfter` needs to know about the values in the stream's answer -/
+def PhiAfter (phi0 : List Nat) (rt : Root) (r : Res) : Prop :=
+  r.1.NoTake ∧ SI2 r.1 ∧ rt.delivered <+: phi0 ∧ (rt.cons.kind ≠ .manual → rt.ended = false) ∧
+  (match r.2.2 with
+   | some (.next (.value v)) => ∃ tail, rt.delivered ++ v :: tail <+: phi0 ∧ r.1.phi specs <+: tail
+   | some _ => True
+   | none => rt.canPull → rt.delivered ++ r.1.phi specs <+: phi0)
+
+/-- enough fuel for the element loop -/
+def Budget (n : Nat) (r : Res) : Prop :=
+  r.1.need specs + (match r.2.2 with | some (.next (.value _)) => 3 | some (.next _) => 2 | _ => 1) ≤ n
+
+theorem prefix_append_of {a b c : List Nat} (h : b <+: c) : a ++ b <+: a ++ c := by
+  obtain ⟨r, rfl⟩ := h
+  exact ⟨r, by simp⟩
+
+/-- the answer to next() issued by the reduce loop after it consumed `v` -/
+theorem phiAfter_next (phi0 : List Nat) (rt : Root) (op : Op) (v : Nat) (tail : List Nat) (acc : Nat) (n : Nat)
+    (hg : Good op) (hm : op.mustStop = true → rt.stopped = true) (hi : op.ph = .idle)
+    (hnt : op.NoTake) (hsi : SI2 op) (hend : rt.cons.kind ≠ .manual → rt.ended = false)
+    (h1 : rt.delivered ++ v :: tail <+: phi0) (h2 : op.phi specs <+: tail) (hb : op.need specs + 2 ≤ n) :
+    PhiAfter specs phi0 { rt with op := op, acc := acc, delivered := rt.delivered ++ [v] }
+      (deliver specs (op.need specs) (.next rt.stopped) op) ∧
+    Budget specs n (deliver specs (op.need specs) (.next rt.stopped) op) := by
+  obtain ⟨nt, si, hv, hn⟩ := deliver_phi specs (op.need specs) (.next rt.stopped) op hg ⟨hi, hm⟩ hsi hnt
+  obtain ⟨_, le, lt⟩ := deliver_need specs (op.need specs) (.next rt.stopped) op hnt
+  generalize deliver specs (op.need specs) (.next rt.stopped) op = r2 at *
+  obtain ⟨op2, outs2, sg2⟩ := r2
+  simp only at nt si hv hn le lt
+  have hpre : rt.delivered ++ [v] <+: phi0 := by
+    refine List.IsPrefix.trans ?_ h1
+    exact prefix_append_of ⟨tail, rfl⟩
+  refine ⟨⟨nt, si, hpre, hend, ?_⟩, ?_⟩
+  · cases sg2 with
+    | none =>
+      intro _
+      have h3 := (hn (by simp)).trans h2
+      have : rt.delivered ++ [v] ++ op2.phi specs <+: rt.delivered ++ v :: tail := by
+        rw [List.append_assoc]; exact prefix_append_of (by simpa using (List.prefix_cons_inj v).2 h3)
+      exact this.trans h1
+    | some x =>
+      cases x with
+      | clean e => trivial
+      | next o =>
+        cases o with
+        | done => trivial
+        | error e => trivial
+        | value w =>
+          obtain ⟨tail2, h5, h6⟩ := hv w rfl
+          rw [h5] at h2
+          obtain ⟨t3, h7, h8⟩ := prefix_cons_of h2
+          refine ⟨t3, ?_, h6.trans h8⟩
+          subst h7
+          simpa [List.append_assoc] using h1
+  · simp only [Budget]
+    cases sg2 with
+    | none => simp only; omega
+    | some x =>
+      cases x with
+      | clean e => simp only; omega
+      | next o =>
+        cases o with
+        | done => simp only; omega
+        | error e => simp only; omega
+        | value w => have := lt w rfl; simp only; omega
+
+
+/-- the answer to cleanup() issued by the reduce loop: nothing more is delivered -/
+theorem phiAfter_cleanup (phi0 : List Nat) (rt' : Root) (op : Op) (n : Nat)
+    (hg : Good op) (hi : op.ph = .idle) (hnt : op.NoTake) (hsi : SI2 op)
+    (hend : rt'.cons.kind ≠ .manual → rt'.ended = false) (hpre : rt'.delivered <+: phi0)
+    (hph : rt'.ph = .cleaning) (hb : op.need specs + 1 ≤ n)
+    (ha : AfterOK rt' (deliver specs (op.need specs) .cleanup op)) :
+    PhiAfter specs phi0 rt' (deliver specs (op.need specs) .cleanup op) ∧
+    Budget specs n (deliver specs (op.need specs) .cleanup op) := by
+  obtain ⟨nt, si, hv, hn⟩ := deliver_phi specs (op.need specs) .cleanup op hg hi hsi hnt
+  obtain ⟨_, le, lt⟩ := deliver_need specs (op.need specs) .cleanup op hnt
+  obtain ⟨_, _, _, hmatch⟩ := ha
+  generalize deliver specs (op.need specs) .cleanup op = r2 at *
+  obtain ⟨op2, outs2, sg2⟩ := r2
+  simp only at nt si hv hn le lt hmatch
+  cases sg2 with
+  | none =>
+    refine ⟨⟨nt, si, hpre, hend, ?_⟩, by simp only [Budget]; omega⟩
+    intro hc
+    rcases hc with ⟨h, _⟩ | h <;> simp [hph] at h
+  | some x =>
+    cases x with
+    | clean e => exact ⟨⟨nt, si, hpre, hend, trivial⟩, by simp only [Budget]; omega⟩
+    | next o =>
+      have := hmatch.2.1
+      simp [hph] at this
+
+theorem rootAfter_phi (phi0 : List Nat) : ∀ (n : Nat) (rt : Root) (r : Res),
+    AfterOK rt r → PhiAfter specs phi0 rt r → Budget specs n r → PInv specs phi0 (rootAfter specs n rt r).1 := by
+  intro n
+  induction n with
+  | zero =>
+    intro rt r _ _ hb
+    have := Op.need_pos specs r.1
+    simp only [Budget] at hb
+    split at hb <;> omega
+  | succ n ih =>
+    intro rt r ha hp hb
+    obtain ⟨hnt, hsi, hpre, hend, hm⟩ := hp
+    have ha' := ha
+    obtain ⟨hg, hms, hns, hmatch⟩ := ha
+    obtain ⟨op', outs, sg⟩ := r
+    simp only at hnt hsi hg hms hm hmatch
+    cases sg with
+    | none =>
+      simp only [rootAfter]
+      exact ⟨hnt, hsi, hpre, hm, hend⟩
+    | some x =>
+      cases x with
+      | clean e =>
+        simp only [rootAfter]
+        cases rt.cons.kind <;> simp only <;>
+          exact ⟨hnt, hsi, hpre, fun hc => by rcases hc with ⟨h, _⟩ | h <;> simp at h, hend⟩
+      | next o =>
+        obtain ⟨h1, h2, h3⟩ := hmatch
+        cases hk : rt.cons.kind with
+        | manual =>
+          simp only [rootAfter, hk]
+          cases o with
+          | value v =>
+            obtain ⟨tail, h5, h6⟩ := hm
+            have hpre' : rt.delivered ++ [v] <+: phi0 :=
+              List.IsPrefix.trans (prefix_append_of ⟨tail, rfl⟩) h5
+            refine ⟨hnt, hsi, hpre', fun _ => ?_, by simp [hk]⟩
+            have : rt.delivered ++ [v] ++ op'.phi specs <+: rt.delivered ++ v :: tail := by
+              rw [List.append_assoc]; exact prefix_append_of (by simpa using (List.prefix_cons_inj v).2 h6)
+            exact this.trans h5
+          | done => exact ⟨hnt, hsi, hpre, fun hc => by rcases hc with ⟨_, h⟩ | h <;> simp at h, by simp [hk]⟩
+          | error e => exact ⟨hnt, hsi, hpre, fun hc => by rcases hc with ⟨_, h⟩ | h <;> simp at h, by simp [hk]⟩
+        | reduce =>
+          have hend' : rt.cons.kind ≠ .manual → rt.ended = false := hend
+          cases o with
+          | value v =>
+            obtain ⟨tail, h5, h6⟩ := hm
+            have hbv : op'.need specs + 3 ≤ n + 1 := by simpa [Budget] using hb
+            have hpre' : rt.delivered ++ [v] <+: phi0 :=
+              List.IsPrefix.trans (prefix_append_of ⟨tail, rfl⟩) h5
+            cases hs : rt.cons.step rt.acc v with
+            | ok acc' =>
+              obtain ⟨hpa, hbu⟩ := phiAfter_next specs phi0 rt op' v tail acc' n hg hms h1 hnt hsi hend' h5 h6 (by omega)
+              have hao := afterOK_next specs rt (op', outs, some (.next (.value v))) none hg hms hns h1 h2 h3 acc' (rt.delivered ++ [v])
+              have := ih _ _ hao hpa hbu
+              simpa [rootAfter, hk, hs] using this
+            | error e =>
+              have hao := afterOK_cleanup specs rt (op', outs, some (.next (.value v))) hg hms hns h1 h2 h3 (some e) (rt.delivered ++ [v])
+              obtain ⟨hpa, hbu⟩ := phiAfter_cleanup specs phi0
+                { rt with op := op', ph := .cleaning, err := some e, delivered := rt.delivered ++ [v] } op' n hg h1 hnt hsi
+                hend' hpre' rfl (by omega) hao
+              have := ih _ _ hao hpa hbu
+              simpa [rootAfter, hk, hs] using this
+          | done =>
+            have hbn : op'.need specs + 2 ≤ n + 1 := by simpa [Budget] using hb
+            have hao := afterOK_cleanup specs rt (op', outs, some (.next .done)) hg hms hns h1 h2 h3 rt.err rt.delivered
+            obtain ⟨hpa, hbu⟩ := phiAfter_cleanup specs phi0
+              { rt with op := op', ph := .cleaning, err := rt.err, delivered := rt.delivered } op' n hg h1 hnt hsi
+              hend' hpre rfl (by omega) hao
+            have := ih _ _ hao hpa hbu
+            simpa [rootAfter, hk] using this
+          | error e =>
+            have hbn : op'.need specs + 2 ≤ n + 1 := by simpa [Budget] using hb
+            have hao := afterOK_cleanup specs rt (op', outs, some (.next (.error e))) hg hms hns h1 h2 h3 (some e) rt.delivered
+            obtain ⟨hpa, hbu⟩ := phiAfter_cleanup specs phi0
+              { rt with op := op', ph := .cleaning, err := some e, delivered := rt.delivered } op' n hg h1 hnt hsi
+              hend' hpre rfl (by omega) hao
+            have := ih _ _ hao hpa hbu
+            simpa [rootAfter, hk] using this
+        | forEach =>
+          have hend' : rt.cons.kind ≠ .manual → rt.ended = false := hend
+          cases o with
+          | value v =>
+            obtain ⟨tail, h5, h6⟩ := hm
+            have hbv : op'.need specs + 3 ≤ n + 1 := by simpa [Budget] using hb
+            have hpre' : rt.delivered ++ [v] <+: phi0 :=
+              List.IsPrefix.trans (prefix_append_of ⟨tail, rfl⟩) h5
+            cases hs : rt.cons.step rt.acc v with
+            | ok acc' =>
+              obtain ⟨hpa, hbu⟩ := phiAfter_next specs phi0 rt op' v tail acc' n hg hms h1 hnt hsi hend' h5 h6 (by omega)
+              have hao := afterOK_next specs rt (op', outs, some (.next (.value v))) none hg hms hns h1 h2 h3 acc' (rt.delivered ++ [v])
+              have := ih _ _ hao hpa hbu
+              simpa [rootAfter, hk, hs] using this
+            | error e =>
+              have hao := afterOK_cleanup specs rt (op', outs, some (.next (.value v))) hg hms hns h1 h2 h3 (some e) (rt.delivered ++ [v])
+              obtain ⟨hpa, hbu⟩ := phiAfter_cleanup specs phi0
+                { rt with op := op', ph := .cleaning, err := some e, delivered := rt.delivered ++ [v] } op' n hg h1 hnt hsi
+                hend' hpre' rfl (by omega) hao
+              have := ih _ _ hao hpa hbu
+              simpa [rootAfter, hk, hs] using this
+          | done =>
+            have hbn : op'.need specs + 2 ≤ n + 1 := by simpa [Budget] using hb
+            have hao := afterOK_cleanup specs rt (op', outs, some (.next .done)) hg hms hns h1 h2 h3 rt.err rt.delivered
+            obtain ⟨hpa, hbu⟩ := phiAfter_cleanup specs phi0
+              { rt with op := op', ph := .cleaning, err := rt.err, delivered := rt.delivered } op' n hg h1 hnt hsi
+              hend' hpre rfl (by omega) hao
+            have := ih _ _ hao hpa hbu
+            simpa [rootAfter, hk] using this
+          | error e =>
+            have hbn : op'.need specs + 2 ≤ n + 1 := by simpa [Budget] using hb
+            have hao := afterOK_cleanup specs rt (op', outs, some (.next (.error e))) hg hms hns h1 h2 h3 (some e) rt.delivered
+            obtain ⟨hpa, hbu⟩ := phiAfter_cleanup specs phi0
+              { rt with op := op', ph := .cleaning, err := some e, delivered := rt.delivered } op' n hg h1 hnt hsi
+              hend' hpre rfl (by omega) hao
+            have := ih _ _ hao hpa hbu
+            simpa [rootAfter, hk] using this
+
+
+/-- the answer to the call issued by an external event -/
+theorem phiAfter_top (phi0 : List Nat) (rt rt' : Root) (call : Call) (hp : PInv specs phi0 rt) (hg : Good rt.op)
+    (hl : Legal call rt.op) (hd : rt'.delivered = rt.delivered) (hc : rt'.cons = rt.cons) (he : rt'.ended = rt.ended)
+    (hcp : rt'.canPull → rt.canPull)
+    (hval : ∀ v, (deliver specs (rt.op.need specs) call rt.op).2.2 = some (.next (.value v)) → rt.canPull) :
+    PhiAfter specs phi0 rt' (deliver specs (rt.op.need specs) call rt.op) ∧
+    Budget specs (rt.op.need specs + 3) (deliver specs (rt.op.need specs) call rt.op) := by
+  obtain ⟨nt, si, hv, hn⟩ := deliver_phi specs (rt.op.need specs) call rt.op hg hl hp.si hp.nt
+  obtain ⟨_, le, lt⟩ := deliver_need specs (rt.op.need specs) call rt.op hp.nt
+  generalize deliver specs (rt.op.need specs) call rt.op = r at *
+  obtain ⟨op', outs, sg⟩ := r
+  simp only at nt si hv hn le lt hval
+  refine ⟨⟨nt, si, by rw [hd]; exact hp.pre, by rw [hc, he]; exact hp.ended, ?_⟩, ?_⟩
+  · cases sg with
+    | none =>
+      intro h
+      have := hp.pull (hcp h)
+      rw [hd]
+      exact (prefix_append_of (hn (by simp))).trans this
+    | some x =>
+      cases x with
+      | clean e => trivial
+      | next o =>
+        cases o with
+        | done => trivial
+        | error e => trivial
+        | value v =>
+          obtain ⟨tail, h5, h6⟩ := hv v rfl
+          have := hp.pull (hval v rfl)
+          rw [h5] at this
+          exact ⟨tail, by rw [hd]; exact this, h6⟩
+  · simp only [Budget]
+    split <;> omega
+
+theorem init_pinv (c : Consumer) (e : SExpr) (hnt : (connect e).NoTake) (hsi : SI2 (connect e)) :
+    PInv specs ((connect e).phi specs) (Root.init c e) :=
+  ⟨hnt, hsi, by simp [Root.init], fun _ => by simp [Root.init], fun _ => rfl⟩
+
+theorem rootStep_phi (phi0 : List Nat) (rt : Root) (h : RInv rt) (hp : PInv specs phi0 rt) (ev : REv)
+    (hok : evOk rt ev = true) : PInv specs phi0 (rootStep specs rt ev).1 := by
+  have hres : rt.ph = .idle → rt.result = none := fun hph => by
+    cases hh : rt.result with
+    | none => rfl
+    | some x => have := h.res (by simp [hh]); have := h.idle hph; simp_all
+  cases ev with
+  | compNext i =>
+    have ha := afterOK_event specs rt h (.compNext i) trivial (by simp)
+    obtain ⟨h1, h2⟩ := phiAfter_top specs phi0 rt rt (.compNext i) hp h.good trivial rfl rfl rfl id (by
+      intro v hv
+      have := ha.2.2.2
+      rw [hv] at this
+      exact Or.inr this.2.1)
+    exact rootAfter_phi specs phi0 _ _ _ ha h1 h2
+  | compClean i =>
+    have ha := afterOK_event specs rt h (.compClean i) trivial (by simp)
+    obtain ⟨h1, h2⟩ := phiAfter_top specs phi0 rt rt (.compClean i) hp h.good trivial rfl rfl rfl id (by
+      intro v hv
+      have := ha.2.2.2
+      rw [hv] at this
+      exact Or.inr this.2.1)
+    exact rootAfter_phi specs phi0 _ _ _ ha h1 h2
+  | start =>
+    simp only [evOk, Bool.and_eq_true, bne_iff_ne, ne_eq, Bool.not_eq_eq_eq_not, Bool.not_true] at hok
+    have hph := h.notStarted hok.1 hok.2
+    have hi := h.idle hph
+    have hcp : rt.canPull := Or.inl ⟨hph, hp.ended hok.1⟩
+    have ha := afterOK_next' specs { rt with started := true, ph := .nexting } rt.op (rt.op.need specs) h.good h.ms
+      (by simp) hi rfl (hres hph)
+    obtain ⟨h1, h2⟩ := phiAfter_top specs phi0 rt { rt with started := true, ph := .nexting } (.next rt.stopped) hp h.good
+      ⟨hi, h.ms⟩ rfl rfl rfl (fun _ => hcp) (fun _ _ => hcp)
+    exact rootAfter_phi specs phi0 _ _ _ ha h1 h2
+  | next =>
+    simp only [evOk, Bool.and_eq_true, beq_iff_eq, Bool.not_eq_eq_eq_not, Bool.not_true] at hok
+    have hi := h.idle hok.1.2
+    have hcp : rt.canPull := Or.inl ⟨hok.1.2, hok.2⟩
+    have ha := afterOK_next' specs { rt with ph := .nexting } rt.op (rt.op.need specs) h.good h.ms
+      (by simp [hok.1.1]) hi rfl (hres hok.1.2)
+    obtain ⟨h1, h2⟩ := phiAfter_top specs phi0 rt { rt with ph := .nexting } (.next rt.stopped) hp h.good
+      ⟨hi, h.ms⟩ rfl rfl rfl (fun _ => hcp) (fun _ _ => hcp)
+    exact rootAfter_phi specs phi0 _ _ _ ha h1 h2
+  | cleanup =>
+    simp only [evOk, Bool.and_eq_true, beq_iff_eq] at hok
+    have hi := h.idle hok.2
+    have ha := afterOK_cleanup' specs { rt with ph := .cleaning } rt.op (rt.op.need specs) h.good h.ms
+      (by simp [hok.1]) hi rfl (hres hok.2)
+    obtain ⟨h1, h2⟩ := phiAfter_top specs phi0 rt { rt with ph := .cleaning } .cleanup hp h.good
+      hi rfl rfl rfl (fun hc => by rcases hc with ⟨h', _⟩ | h' <;> simp at h') (by
+      intro v hv
+      have := ha.2.2.2
+      rw [hv] at this
+      simp at this)
+    exact rootAfter_phi specs phi0 _ _ _ ha h1 h2
+  | stop =>
+    have h' : RInv { rt with stopped := true } :=
+      ⟨h.good, fun _ => rfl, h.idle, h.nx, h.cl, h.res, h.fin, h.notStarted⟩
+    have hp' : PInv specs phi0 { rt with stopped := true } := ⟨hp.nt, hp.si, hp.pre, hp.pull, hp.ended⟩
+    simp only [rootStep]
+    by_cases hs : rt.stopped = true
+    · simp only [hs, if_true]; exact hp
+    · have hs' : rt.stopped = false := by simpa using hs
+      simp only [hs', Bool.false_eq_true, if_false]
+      split
+      · rename_i hph
+        have ha := afterOK_event specs { rt with stopped := true } h' .stop trivial (fun _ => rfl)
+        obtain ⟨h1, h2⟩ := phiAfter_top specs phi0 { rt with stopped := true } { rt with stopped := true } .stop hp' h'.good
+          trivial rfl rfl rfl id (fun _ _ => Or.inr hph)
+        exact rootAfter_phi specs phi0 _ _ _ ha h1 h2
+      · exact hp'
+
+theorem runEvents_phi (phi0 : List Nat) : ∀ (evs : List REv) (rt : Root), RInv rt → PInv specs phi0 rt →
+    PInv specs phi0 (runEvents specs rt evs).1 := by
+  intro evs
+  induction evs with
+  | nil => intro rt _ h; exact h
+  | cons ev evs ih =>
+    intro rt h hp
+    simp only [runEvents]
+    by_cases hok : evOk rt ev = true
+    · simp only [hok, if_true]
+      exact ih _ (rootStep_inv specs rt h ev hok) (rootStep_phi specs phi0 rt h hp ev hok)
+    · simp only [hok]
+      exact ih _ h hp
+
+
+/-- no take_until in the expression -/
+def SExpr.NoTake : SExpr → Prop
+  | .un _ s => s.NoTake
+  | .filter _ s => s.NoTake
+  | .stopImmediately s => s.NoTake
+  | .takeUntil _ _ => False
+  | _ => True
+
+theorem connect_noTake (e : SExpr) (h : e.NoTake) : (connect e).NoTake := by
+  induction e with
+  | range lo hi => trivial
+  | single v => trivial
+  | neverS => trivial
+  | src i => trivial
+  | un k s ih => exact ih h
+  | filter p s ih => exact ih h
+  | stopImmediately s ih => exact ih h
+  | takeUntil s t ihs iht => exact absurd h (by simp [SExpr.NoTake])
+
+theorem connect_SI2 (e : SExpr) : SI2 (connect e) := by
+  induction e with
+  | range lo hi => simp [connect, SI2, LeafSt.init]
+  | single v => simp [connect, SI2, LeafSt.init]
+  | neverS => simp [connect, SI2, LeafSt.init]
+  | src i => simp [connect, SI2, LeafSt.init]
+  | un k s ih => exact ih
+  | filter p s ih => exact ih
+  | stopImmediately s ih => exact ⟨ih, by simp [StopImmSt.init], by simp [StopImmSt.init], by simp [StopImmSt.init]⟩
+  | takeUntil s t ihs iht => exact ⟨ihs, iht⟩
+
+theorem mapDen_fst (f : Fn) (l : List Nat) (t t' : Option Nat) : (mapDen f l t).1 = (mapDen f l t').1 := by
+  induction l with
+  | nil => rfl
+  | cons x xs ih => simp only [mapDen]; cases f.app x <;> simp [ih]
+
+theorem filterDen_fst (p : Pred) (l : List Nat) (t t' : Option Nat) : (filterDen p l t).1 = (filterDen p l t').1 := by
+  induction l with
+  | nil => rfl
+  | cons x xs ih => simp only [filterDen]; cases p.app x <;> simp [ih]
+
+/-- for an expression without take_until, `Op.phi` of the initial state is the sequence of the specification -/
+theorem connect_phi (e : SExpr) (h : e.NoTake) : (connect e).phi specs = (e.den specs false).1 := by
+  induction e with
+  | range lo hi => simp [connect, Op.phi, leafDenK, leafDen, SExpr.den, LeafSt.init]
+  | single v => simp [connect, Op.phi, leafDenK, leafDen, SExpr.den, LeafSt.init]
+  | neverS => simp [connect, Op.phi, leafDenK, leafDen, SExpr.den, LeafSt.init]
+  | src i => simp [connect, Op.phi, leafDenK, leafDen, SExpr.den, LeafSt.init]
+  | un k s ih =>
+    simp only [connect, Op.phi, SExpr.den, ih h]
+    cases k with
+    | transform f => exact mapDen_fst f _ _ _
+    | nextAdapt f => exact mapDen_fst f _ _ _
+    | typeErase => rfl
+    | cleanupAdapt c => rfl
+  | filter p s ih =>
+    simp only [connect, Op.phi, SExpr.den, ih h]
+    exact filterDen_fst p _ _ _
+  | stopImmediately s ih => simpa [connect, Op.phi, SExpr.den, StopImmSt.init] using ih h
+  | takeUntil s t ihs iht => exact absurd h (by simp [SExpr.NoTake])
+
 end Unifex.Stream
